@@ -433,6 +433,7 @@ func runC04(c *Ctx) {
 	checkDownloadWrites(c, "plumbing.download-writes")
 	checkGenericErrorDiscipline(c, "pkg/core")
 	checkUploadBatchProtocol(c, "index-count.batch-protocol")
+	checkNoStreamInRetry(c, "plumbing.no-stream-in-retry", "pkg/cafs", "pkg/core")
 }
 
 // disjuncts splits a || b || c.
